@@ -1,13 +1,64 @@
 PROP = {
-    "lean_modules": ["GunYu.Model.Restore"],
+    "lean_modules": ["GunYu.Props.C20"],
     "audit_namespaces": ["GunYu.Props.C20"],
-    "required_theorems": [],
+    "required_theorems": [
+        "GunYu.Props.C20.replace_final",
+        "GunYu.Props.C20.ignore_untouched",
+        "GunYu.Props.C20.error_before_modify",
+        "GunYu.Props.C20.replace_final_bisync",
+        "GunYu.Props.C20.ignore_untouched_bisync",
+        "GunYu.Props.C20.error_before_modify_bisync",
+        "GunYu.Props.C20.absent_final",
+    ],
     "expected_facts": {},
-    "harness": [{"name": "C20", "pkg": "./pkg/rdbrestore/", "test": "TestVerifC20"}],
+    "harness": [
+        {"name": "C20", "pkg": "./pkg/rdbrestore/", "test": "TestVerifC20"},
+        {"name": "C20S", "pkg": "./syncer/", "test": "TestVerifC20Syncer"},
+    ],
     "driver": "drv_C20",
-    "rule": "wip",
-    "trusted": [],
-    "assumptions": [],
+    "rule": "cases = (snapshot of 1-4 keys: string (raw/int), linked list, set, zset, hash table; expiry none/past/future; "
+            "written by the harness's RDB writer and parsed by the REAL rdb.Loader, chunk threshold production/1/4..30 bytes so "
+            "hash values split into 1..7 chunks) x (policy replace/ignore/error) x (restore on/off, bulk limit large or 5..40 "
+            "bytes, target version 4/7) x (any subset of the keys pre-populated on the target double with the same or another "
+            "type - string, list, hash, set, zset, RESTOREd blob - with or without TTL, plus keys not in the snapshot and the "
+            "same name in the other DB); corpus (D7/D21 witnesses) first, then an exhaustive scope of 1404 single-key cases "
+            "(5 types x 7 prior kinds x TTL x 3 snapshot expiries x 3 policies x restore x chunking), then seeded random cases. "
+            "C20: the real RdbReplay.Replay per entry on one connection (mode plain, per-entry outcome lines); "
+            "C20S: the real worker loops rdbReplay (wplain) and rdbReplayBisync = buildBisyncRdbReplayUnit+execBisyncRdbUnit "
+            "(bisync), two DBs. Everything runs in a testing/synctest bubble (time.Now fixed), against the shared target double. "
+            "Compared line by line with the Lean model: every request in order (bisync marker canonicalised), outcome, final "
+            "state class and absolute expiry of every snapshot/pre-existing key. Monitor (Go oracle, independent of the model): "
+            "ignore => value/type/expiry of the existing key unchanged, no write request on it, no failure; error => replay fails "
+            "with the key-exists error, nothing modified before; replace and fresh keys => final value (RESTORE payload recomputed "
+            "from the generator's spec, or list order / hash map / set / zset content) and expiry equal the snapshot's; keys "
+            "outside the snapshot untouched. distinct_nontrivial = distinct cases with at least one pre-existing key",
+    "trusted": [
+        "Redis semantics of EXISTS/DEL/PEXPIRE/RESTORE[REPLACE]/BUSYKEY and of native data commands (create-or-append, TTL kept) "
+        "as transcribed in Model/Restore.lean (objEffect) and as implemented by the target double pkg/vfdoubles",
+        "the expansion of a chunk into commands and the DUMP payload are inputs here (their correctness is C03)",
+    ],
+    "assumptions": [
+        "the chunks of one key reach the same replay worker in order (sendRdb routes by fnv(key); an entry with an EMPTY key is "
+        "routed round-robin, so with replayRdbParallel > 1 a split value under the key \"\" would not satisfy this)",
+        "no other writer touches the key between the probe and the writes (single replay worker per key)",
+        "the target accepts a well-formed RESTORE payload (the 'Bad data format' fallback of RdbReplay.Replay is not modelled: "
+        "the double never answers it)",
+        "replaceHashTag off (with it on, the plain expansion path probes/deletes/expires the rewritten key while the native "
+        "commands still carry the original key - noticed while transcribing, outside this property's quantifier)",
+        "later chunks carry the key's expiry or none (Value.exp): holds for the loader before and after the D8 repair",
+    ],
     "partial": [],
 }
-MANIFEST = {"text": "wip", "note": "wip", "technique": "Lean 4 proof + differential correspondence"}
+
+MANIFEST = {
+    "text": "Lean theorems over ALL chunk lists of one key, ALL prior target states, ALL configurations: with replace the target ends "
+            "with exactly the snapshot's value and expiry and nothing else changes; with ignore only the probe is sent - for every "
+            "chunk - and the keyspace is unchanged; with error the replay stops after the probe with nothing modified; the same "
+            "three for the bidirectional builder (skippedKey) + unit executor; fresh keys end with the snapshot value under any "
+            "policy. The models of RdbReplay.Replay, buildBisyncRdbReplayUnit/execBisyncRdbUnit and the two worker loops are tied "
+            "to the real code by request-by-request correspondence against the target double with pre-populated keys; an "
+            "independent Go monitor checks the property itself on the real code's final keyspace.",
+    "note": "trusted: Lean kernel, transcribed Redis semantics of the few commands used, target double, harness; models of the "
+            "REPAIRED code (D7 fixed ae34095, D21 fixed)",
+    "technique": "Lean 4 proof (induction over the chunk list, per-key object semantics, frame lemmas) + differential correspondence + monitor",
+}
